@@ -74,10 +74,16 @@ def class_keys(prog):
         if k == "const":
             add(nm, ("const", n["value"], n.get("delay")))
             return
+        if k == "conv" and n.get("ty") == "F":
+            # the Float resolution is followed by a Float -> Int helper node
+            inner = ("conv", None, args, n.get("id"), "F")
+            runtime_nodes.add(inner)
+            add(nm, ("f2i", inner))
+            return
         valid = None
         if k in ("c1", "c2", "c3"):
             valid = (n.get("valid", "VVV") + "VVV")[:len(args)]
-        add(nm, (k, valid, args, n.get("id"), n.get("op"), n.get("count"), n.get("period"), n.get("all")))
+        add(nm, (k, valid, args, n.get("id"), n.get("op"), n.get("count"), n.get("period"), n.get("all"), n.get("ty")))
 
     for n in nodes:
         walk(n)
@@ -103,6 +109,9 @@ def duplicate_some(prog, rng):
             if rng.random() < 0.35:
                 # near-duplicate: differs in exactly one scalar / input / template parameter / passive mark
                 kind = rng.choice(("id", "op", "valid", "arg", "passive"))
+                if d["kind"] == "conv" and rng.random() < 0.7:
+                    kind = "ty"          # the same definition, inputs and scalars: only the resolved output type differs
+                    d["ty"] = "F" if d.get("ty") == "I" else "I"
                 if kind == "id":
                     d["id"] = n.get("id", 0) + 7000
                     if d["kind"] in ("source",):
@@ -166,7 +175,7 @@ class C06:
     rule = ("a seeded dataflow program is (i) wired in K=4 random admissible permutations of its statements and (ii) seeded with duplicated "
             "sub-expressions - the same definition with the same inputs and equal scalars wired again (stateless, stateful, sources, scheduler-scripted, "
             "nested_<G> calls, inline sub-graphs whose inner nodes intern individually) - and near-duplicates that differ in exactly one scalar, one "
-            "input, one template parameter (Valid/Unchecked) or one passive mark, plus duplicated sinks. Oracle: all permutations give identical "
+            "input, one template parameter (Valid/Unchecked), one resolved output type of a generic definition (Conv -> TS<Int> / TS<Float>) or one passive mark, plus duplicated sinks. Oracle: every admissible order builds; all permutations give identical "
             "recorder streams and identical node counts; streams equal the reference interpreter run on the un-shared program; the compiled node "
             "count equals the number of congruence classes of value-producing statements + feedback endpoints + sink statements (computed by the "
             "driver), so equal statements share and near-duplicates and sinks never merge. non-trivial = at least one statement pair was shared and "
@@ -202,7 +211,12 @@ class C06:
             if not res.ok:
                 return Outcome(harness_error="harness status=%s signal=%s timeout=%s tail=%s" % (res.status, res.signal, res.timeout, res.raw[-300:]), sample=text)
             for e in res.events:
-                if e["k"] in ("wire_error", "harness_error"):
+                if e["k"] == "wire_error":
+                    # every generated program is well formed (acyclic up to feedback, well typed, ports wired before use): a
+                    # refusal to build it is the engine's, e.g. two resolutions of one definition mistaken for one another
+                    return Outcome(violation=dict(clause="admissible_wiring_rejected", detail="statement order %s: %s" % (o, str(e.get("what"))[:300])),
+                                   digest=res.digest, sample=dict(scenario=text))
+                if e["k"] == "harness_error":
                     return Outcome(harness_error="%s: %s" % (e["k"], e.get("what")), sample=text)
             results.append((o, text, res))
         sample = dict(scenario=text0, orders=orders[:4])
